@@ -2,7 +2,7 @@
    Only statements, `exact`, and Print Assumptions here; proofs are in Tidy/FixProofs.v, Tidy/Witness.v.
    Model: Tidy/Fix.v (open mode: block list, analysis result and database answers are arbitrary arguments). *)
 From Coq Require Import String NArith List Bool Arith.
-From Verif Require Import Base.Chars Base.StrX Tidy.Blocks Tidy.Fix Tidy.FixProofs Tidy.Witness.
+From Verif Require Import Base.Chars Base.StrX Tidy.Blocks Tidy.Fix Tidy.FixProofs Tidy.ErrProofs Tidy.Witness.
 Import ListNotations.
 
 (* Every import of the output blocks was in the input blocks, or is a mandatory import, or is the ONLY
@@ -62,7 +62,40 @@ Theorem C04_select_block_precedes : forall c bs imp l b,
 Proof. exact select_block_precedes. Qed.
 Print Assumptions C04_select_block_precedes.
 
+(* where a block created by add_import is: only non-import blocks are in front of it, their statements are
+   comments / blanks / string literals, with the F9 repair at most one string literal (the docstring) *)
+Theorem C04_new_block_after_prologue : forall c bs bs' nb,
+  insert_new c bs = Ok (bs', nb) ->
+  exists pro rest, bs' = (pro ++ Imps nb :: sep_block :: rest)%list /\ iblocks pro = [] /\
+    Forall noncode (stmts_of pro) /\ (f9 c = true -> n_strings (stmts_of pro) <= 1).
+Proof. exact new_block_after_prologue. Qed.
+Print Assumptions C04_new_block_after_prologue.
+
+(* no_unused_left.  Full statement "every top-level import in the output is read" needs completeness of the
+   analysis (C02/C05) and is not provable in open mode.  Proved: every unused import the analysis reports is
+   gone from every import block that covers its line, whenever the removal phase does not raise - for every
+   configuration.  What stays behind: reports on lines no top-level import block covers ("not global"),
+   __future__ and star imports (never reported), mandatory imports (added again afterwards), and everything in
+   __init__.py / .pyflyby files (remove_unused = False there: the phase is skipped).
+   That the phase does not raise is C03_no_internal_error. *)
+Theorem C04_no_unused_left : forall c us bs bs',
+  remove_all c bs us = Ok bs' ->
+  forall l imp, In (l, imp) us ->
+  forall b', In b' (iblocks bs') -> covers c l b' = true -> by_as (ib_imps b') (i_as imp) = [].
+Proof. exact no_unused_left. Qed.
+Print Assumptions C04_no_unused_left.
+
+(* ... and removes nothing that was not there *)
+Theorem C04_removal_only_removes : forall c us bs bs',
+  remove_all c bs us = Ok bs' -> forall i, In i (all_imports bs') -> In i (all_imports bs).
+Proof. exact remove_all_sub. Qed.
+Print Assumptions C04_removal_only_removes.
+
 Example C04_placement_nonvacuous :
   exists bs', fix_blocks repaired fl_all known_np [] wnv_blocks [(3, dec "np.alpha"%string)] [] = Ok (bs', [(i_np, Some 3, Added 1 false)])
               /\ all_imports bs' = [i_qq; i_np].
 Proof. exact placement_nonvacuous. Qed.
+
+Example C04_no_unused_left_nonvacuous :
+  exists bs' log, fix_blocks repaired fl_all (fun _ => []) [] w23_blocks [] [(2, i_b)] = Ok (bs', log) /\ all_imports bs' = [i_a].
+Proof. exact F23_repaired. Qed.
